@@ -70,6 +70,10 @@ type Model struct {
 type Field struct {
 	K byte
 	P map[int64]Val
+	// Old / Del remember, per timestamp, the values that were overwritten / deleted, so that a
+	// mismatch can be classified ("stale overwritten value", "deleted point visible").
+	Old map[int64][]Val
+	Del map[int64][]Val
 }
 
 func NewModel() *Model { return &Model{S: map[string]map[string]*Field{}} }
@@ -79,9 +83,15 @@ func (m *Model) Clone() *Model {
 	for sk, fs := range m.S {
 		c.S[sk] = map[string]*Field{}
 		for fk, f := range fs {
-			nf := &Field{K: f.K, P: make(map[int64]Val, len(f.P))}
+			nf := &Field{K: f.K, P: make(map[int64]Val, len(f.P)), Old: map[int64][]Val{}, Del: map[int64][]Val{}}
 			for t, v := range f.P {
 				nf.P[t] = v
+			}
+			for t, v := range f.Old {
+				nf.Old[t] = append([]Val(nil), v...)
+			}
+			for t, v := range f.Del {
+				nf.Del[t] = append([]Val(nil), v...)
 			}
 			c.S[sk][fk] = nf
 		}
@@ -98,8 +108,11 @@ func (m *Model) Put(series, field string, t int64, v Val) {
 	}
 	f := fs[field]
 	if f == nil {
-		f = &Field{K: v.K, P: map[int64]Val{}}
+		f = &Field{K: v.K, P: map[int64]Val{}, Old: map[int64][]Val{}, Del: map[int64][]Val{}}
 		fs[field] = f
+	}
+	if old, ok := f.P[t]; ok && old != v {
+		f.Old[t] = append(f.Old[t], old)
 	}
 	f.P[t] = v
 }
@@ -107,8 +120,9 @@ func (m *Model) Put(series, field string, t int64, v Val) {
 // Delete removes [min,max] from every field of the series.
 func (m *Model) Delete(series string, min, max int64) {
 	for _, f := range m.S[series] {
-		for t := range f.P {
+		for t, v := range f.P {
 			if t >= min && t <= max {
+				f.Del[t] = append(f.Del[t], v)
 				delete(f.P, t)
 			}
 		}
@@ -201,3 +215,62 @@ func Point(name string, tags map[string]string, fields map[string]Val, t int64) 
 }
 
 func p2(p models.Point) []models.Point { return []models.Point{p} }
+
+// Classify names the kind of difference between the expected and the observed read of one
+// (series, field): "stale_value" (same timestamps, every wrong value is one that was
+// overwritten earlier), "deleted_point_visible" (extra timestamps/values that a delete
+// removed), "missing_point", or "other".
+func (m *Model) Classify(series, field string, want, got []Pt) string {
+	f := m.S[series][field]
+	if f == nil {
+		return "other"
+	}
+	wm := map[int64]Val{}
+	for _, p := range want {
+		wm[p.T] = p.V
+	}
+	gm := map[int64]Val{}
+	for _, p := range got {
+		gm[p.T] = p.V
+	}
+	if len(gm) != len(got) {
+		return "other" // duplicates
+	}
+	in := func(vs []Val, v Val) bool {
+		for _, x := range vs {
+			if x == v {
+				return true
+			}
+		}
+		return false
+	}
+	stale, deleted, missing, other := 0, 0, 0, 0
+	for t, gv := range gm {
+		wv, ok := wm[t]
+		switch {
+		case ok && wv == gv:
+		case ok && in(f.Old[t], gv):
+			stale++
+		case !ok && in(f.Del[t], gv):
+			deleted++
+		default:
+			other++
+		}
+	}
+	for t := range wm {
+		if _, ok := gm[t]; !ok {
+			missing++
+		}
+	}
+	switch {
+	case other > 0:
+		return "other"
+	case stale > 0 && deleted == 0 && missing == 0:
+		return "stale_value"
+	case deleted > 0 && stale == 0 && missing == 0:
+		return "deleted_point_visible"
+	case missing > 0 && stale == 0 && deleted == 0:
+		return "missing_point"
+	}
+	return "other"
+}
